@@ -474,6 +474,32 @@ prop("C13",
      note="trusts the H3 hook to put the model in place of CPUID/XGETBV and the expected-selection function written from the Intel SDM rules",
      design_ref="DESIGN.md#c13")
 
+
+# ----------------------------------------------------------------------------- C18 (thread safety, TSan)
+TSAN = LibCfg(name="tsan", cc="clang", opt="-O2", cflags=["-fsanitize=thread", "-g", "-fno-omit-frame-pointer"])
+TSAN_ENV = {"TSAN_OPTIONS": "halt_on_error=0:report_signal_unsafe=0:exitcode=0:history_size=4"}
+
+prop("C18",
+     units=lambda tier: [Unit("c18", "c18.cpp", TSAN, cases=scale(tier, 150, 4000), shards=8 if tier == "quick" else 16, cxx="clang++",
+                              hflags=["-fsanitize=thread"], link_flags=["-fsanitize=thread"], env=TSAN_ENV, timeout=3000)],
+     level="exploration",
+     rule=("scenarios of 2-8 threads; every thread initialises 1-2 objects of its own (concurrent init = concurrent CPU detection) and "
+           "runs a generated history on them (CTR / parallel-ECB of every cipher); 0-3 shared objects (Skinny key schedules, tweaked "
+           "schedules, Mantis schedules, keyed parallel-ECB objects) are set up before the threads start and are then used read-only "
+           "(block encryption / decryption) by any thread; the back-end cap is set once per scenario before threads exist (0 / 128 / "
+           "256); library and harness built with clang -fsanitize=thread; oracles: no ThreadSanitizer report (callback counted per "
+           "scenario; a deliberate race in harness code is the positive control at start-up) and every thread's transcript equals the "
+           "same program run alone sequentially; non-trivial = >= 2 threads (always), classes list shared-object use"),
+     assumptions=["ThreadSanitizer's happens-before detection reports two conflicting unsynchronised accesses whenever both occur in the "
+                  "run, whatever order they took; the library has no synchronisation at all, so any shared mutable location touched by two "
+                  "threads is reported - what it cannot see is a conflict on a path no generated scenario executes",
+                  "rapidcheck itself is not TSan-instrumented (it runs only on the main thread)"],
+     technique="generated multi-thread scenarios (rapidcheck) under ThreadSanitizer + per-thread transcript equality with the sequential run",
+     text=("Schedules are not owned by the harness; the race detector removes most of the schedule dependence because it flags "
+           "conflicting accesses regardless of the interleaving that happened. Path coverage is sampled."),
+     note="trusts ThreadSanitizer (clang 14)",
+     design_ref="DESIGN.md#c18")
+
 # ----------------------------------------------------------------------------- generic entry points
 def run(pid, tier, seed, replay):
     p = PROPS[pid]
